@@ -58,3 +58,15 @@ Print Assumptions C05_prune_deletes_only_superseded.
 Theorem C05_commit_tree_is_C01_set : forall t k v, erase_res (aset t k v) = set (erase t) k v.
 Proof. exact erase_set. Qed.
 Print Assumptions C05_commit_tree_is_C01_set.
+
+(** the store's configuration resolution (mavl.New): a store that prunes builds
+    its trees with height-prefixed node keys, whatever the prefix switch says
+    (the configuration every theorem above and the model are about); example:
+    [shipped_cfg_resolves] (enableMavlPrune alone gives prefix + prune) *)
+Theorem C05_prune_implies_prefix : forall s,
+  tc_prune (effective_cfg s) = sc_prune s /\
+  tc_prune_height (effective_cfg s) = sc_prune_height s /\
+  (sc_prune s = true -> tc_prefix (effective_cfg s) = true) /\
+  (sc_prune s = false -> tc_prefix (effective_cfg s) = sc_prefix s).
+Proof. exact prune_implies_prefix. Qed.
+Print Assumptions C05_prune_implies_prefix.
